@@ -79,9 +79,10 @@ def body_addsub(h):
         else:
             h.require('x+0', ite(oz, zr, s_and(s_not(zr), er == oe, mr == om, s_iff(nr, on))))
         return obs
-    a_larger = s_or(ea > eb, s_and(ea == eb, ma >= mb))
-    el, ml, nl = ite(a_larger, ea, eb), ite(a_larger, ma, mb), ite(a_larger, na, nb_)
-    es, ms, ns = ite(a_larger, eb, ea), ite(a_larger, mb, ma), ite(a_larger, nb_, na)
+    if s_or(ea > eb, s_and(ea == eb, ma >= mb)):      # forks: which operand is the larger
+        el, ml, nl, es, ms, ns = ea, ma, na, eb, mb, nb_
+    else:
+        el, ml, nl, es, ms, ns = eb, mb, nb_, ea, ma, na
     d = el - es
     if d <= D:
         sh = d + G
